@@ -6,7 +6,7 @@ Small-scope exhaustive input enumeration.  A case is (registered set, script):
     an EARLIER constant of the fitting kind (so the reference graphs are exactly the DAGs over <=3 nodes, incl. the same
     constant used twice and a constant that is nothing but a reference) or the hash of an expression that was never
     registered;
-  * script: a fixed parameter/storage/code/view skeleton with 12 typed slots (type, code and data positions: section
+  * script: a fixed parameter/storage/code/view skeleton with 14 typed slots (type, code and data positions: section
     root, nested type, top-level and nested instruction, PUSH type and value, nested datum, datum in a list, LAMBDA
     argument and body, view type and view code); up to 2 (3) slots hold a reference to a registered constant or an
     unknown hash, the rest plain expressions.
@@ -27,7 +27,7 @@ ID = 'C33'
 LEVEL = 'exploration'
 RULE = ('cases = (registered set, script[, entry point]); sets = every sequence of <=3 constants over the body templates '
         '(3 kinds; 0/1/2 holes; hole = plain | reference to an earlier constant of that kind | never-registered hash); scripts = '
-        'skeleton with 12 typed slots, <=2 (<=3) of them a reference / unknown hash (at most one unknown); plus per set: registered keys, every '
+        'skeleton with 14 typed slots, <=2 (<=3) of them a reference / unknown hash (at most one unknown); plus per set: registered keys, every '
         'constant expanded at the root, malformed constant nodes.  Non-trivial = the script names at least one hash; '
         'distinct by (set, script, entry point)')
 BOUND = {
@@ -86,7 +86,7 @@ TEMPLATES = {'basic': BASIC, 'ext': EXTENDED}
 MISSING = ref.expr_hash({'prim': 'chain_id'})     # named inside constants, never registered
 UNKNOWN = ref.expr_hash({'prim': 'never'})        # named inside scripts, never registered
 
-SLOT_KIND = 'TTCCTDDTCDTC'
+SLOT_KIND = 'TTCCTDDTCDTC' + 'CD'   # the last two sit in a sequence nested DIRECTLY inside a sequence ({ { . } } and a list of lists)
 NSLOTS = len(SLOT_KIND)
 
 
@@ -101,6 +101,8 @@ def build_script(v):
             {'prim': 'PUSH', 'args': [{'prim': 'pair', 'args': [NAT, NAT]}, {'prim': 'Pair', 'args': [v[6], {'int': '1'}]}]},
             {'prim': 'LAMBDA', 'args': [v[7], {'prim': 'unit'}, [v[8]]]},
             {'prim': 'PUSH', 'args': [{'prim': 'list', 'args': [NAT]}, [{'int': '1'}, v[9]]]},
+            [[v[12], {'prim': 'SWAP'}]],
+            {'prim': 'PUSH', 'args': [{'prim': 'list', 'args': [{'prim': 'list', 'args': [NAT]}]}, [[{'int': '3'}, v[13]], []]]},
             {'prim': 'FAILWITH'},
         ]]},
         {'prim': 'view', 'args': [{'string': 'v'}, v[10], {'prim': 'unit'}, [{'prim': 'DROP'}, v[11], {'prim': 'UNIT'}]]},
